@@ -7,7 +7,8 @@ import c17
 
 CONFIGS = ['prod']
 EXPLANATION = (
-    'Decided clauses: R1 the rebuild loop — every keyspace storage lists is rebuilt (no filter on the list), its metadata is sorted by '
+    'Decided clauses: R1 the rebuild loop — every keyspace storage lists is rebuilt (no filter on the list), its rows are gathered in a '
+    'collection that keeps every row (a map keyed by timestamp would collapse the rows of one bulk write), its metadata is sorted by '
     'the timestamp component before the replay (the replay goes through source 0, whose gate refuses any stamp older than the newest '
     'already seen from the same origin, so an unsorted replay drops entries), a tombstone row is replayed as a delete and a live row as '
     'an insert on every iteration, and the rebuilt set is registered under the keyspace it was read for; R2 storage is never behind the '
